@@ -37,6 +37,8 @@ CAUGHT = {
     "C09-6": {"C09": "violation"}, "C10-6": {"C10": "violation"}, "C11-6": {"C11": "violation"}, "C12-6": {"C12": "violation"},
     "C13-6": {"C13": "violation"}, "C14-6": {"C14": "violation"}, "C15-6": {"C15": "violation"}, "C16-6": {"C16": "violation"},
     "C17-6": {"C17": "violation"}, "C18-6": {"C18": "violation"}, "C19-6": {"C19": "violation"}, "C20-6": {"C20": "violation"},
+    "C01-7": {"C01": "violation"}, "C02-7": {"C02": "violation"}, "C03-7": {"C03": "violation"}, "C04-7": {"C04": "violation"}, "C05-7": {"C05": "violation"}, "C06-7": {"C06": "violation"}, "C07-7": {"C07": "violation"}, "C08-7": {"C08": "violation"}, "C09-7": {"C09": "violation"}, "C10-7": {"C10": "violation"},
+    "C11-7": {"C11": "violation"}, "C12-7": {"C12": "violation"}, "C13-7": {"C13": "violation"}, "C14-7": {"C14": "violation"}, "C15-7": {"C15": "violation"}, "C16-7": {"C16": "violation"}, "C17-7": {"C17": "violation"}, "C18-7": {"C18": "violation"}, "C19-7": {"C19": "violation"}, "C20-7": {"C20": "violation"},
 }
 for d in sorted(os.listdir(root)):
     p = os.path.join(root, d)
